@@ -45,6 +45,43 @@ Proof.
   split; [reflexivity|]. split; [reflexivity|]. split; [constructor; vm_compute; reflexivity|]. vm_compute. repeat split.
 Qed.
 
+(* ---- the decoder's RESTART rule (Spec/Abs.dir_scan: a long-name slot carrying 0x40 starts a run, as in every reader of the
+   format).  An orphan partial run [orph] (live long-name slots, 0x40 at most on the first: what a write_entry that ran out
+   of space leaves at the end of a directory cluster) directly followed by the complete run [run] of the short slot [s]
+   (what the next successful write_entry appends): the entry of [s] is decoded from its own run - with its long name,
+   e_first_slot at the first slot of [run] - and [orph] is reported exactly once, at the index where [run] starts.
+   [pre] is a prefix that decodes without issue, [post] the rest of the directory. *)
+Theorem C03_scan_orphan_then_entry : forall fat32 pre orph run s post es1 ls1 es2 ls2 iss2,
+  Forall nonend pre -> dir_scan pre 0 [] fat32 = (es1, ls1, []) ->
+  orph <> [] -> Forall lfn_like orph -> Forall nostart (tl orph) ->
+  run <> [] -> Forall lfn_like run -> short_live s -> run_valid (rev run) (firstn 11 s) = true ->
+  dir_scan post (len_N pre + len_N orph + len_N run + 1) [] fat32 = (es2, ls2, iss2) ->
+  let e := mk_entry (rev run) s (len_N pre + len_N orph + len_N run) fat32 in
+  dir_scan (pre ++ orph ++ run ++ s :: post) 0 [] fat32 =
+    (es1 ++ e :: es2, ls1 ++ ls2, DOrphanLfn (len_N pre + len_N orph) :: iss2) /\
+  e_lfn_ok e = true /\ e_lfn e = cut_nul (flat_map lfn_units (rev run)) /\
+  e_first_slot e = len_N pre + len_N orph /\ e_sfn_slot e = len_N pre + len_N orph + len_N run.
+Proof. exact scan_orphan_then_entry. Qed.
+(* "hello world.txt" (slots 0-2), the first slot (0x42) of the run of a 14-character name, the run (0x41) and the short slot
+   of "b", the end marker: "b" has its long name, the orphan slot 3 is reported at slot 4; the hypotheses hold.  Without
+   the restart (0x42 and 0x41 taken as one run) "b" would lose its long name. *)
+Example C03_scan_orphan_then_entry_ex :
+  map (fun s => byte_at s 0) ex_dir_restart = [66; 1; 72; 66; 65; 66; 0] /\
+  Forall nonend (firstn 3 ex_dir1) /\ snd (dir_scan (firstn 3 ex_dir1) 0 [] false) = [] /\
+  Forall lfn_like ex_orph /\ Forall nostart (tl ex_orph) /\ Forall lfn_like ex_run_b /\ short_live ex_live /\
+  run_valid (rev ex_run_b) (firstn 11 ex_live) = true /\ run_valid (rev (ex_orph ++ ex_run_b)) (firstn 11 ex_live) = false /\
+  map e_lfn (fst (fst (dir_scan ex_dir_restart 0 [] false))) = [ex_name1; [98]] /\
+  map e_lfn_ok (fst (fst (dir_scan ex_dir_restart 0 [] false))) = [true; true] /\
+  map e_first_slot (fst (fst (dir_scan ex_dir_restart 0 [] false))) = [0; 4] /\
+  snd (dir_scan ex_dir_restart 0 [] false) = [DOrphanLfn 4].
+Proof.
+  split; [vm_compute; reflexivity|]. split; [repeat constructor; vm_compute; discriminate|]. split; [vm_compute; reflexivity|].
+  split; [repeat constructor; vm_compute; try reflexivity; discriminate|]. split; [constructor|].
+  split; [repeat constructor; vm_compute; try reflexivity; discriminate|].
+  split; [repeat split; vm_compute; try reflexivity; discriminate|].
+  vm_compute. repeat split.
+Qed.
+
 (* ---- write_entry refines "insert one entry" (the long-name run is omitted for "." and "..").  If the directory decodes
    without issue, then after a successful write_entry it decodes to the same entries plus exactly one new entry, which sits
    at the position of the reused run (NOT necessarily last); the new entry carries the given name, alias, attributes,
@@ -165,6 +202,7 @@ Proof. split; [reflexivity|]. split; [reflexivity|]. split; vm_compute; discrimi
 Print Assumptions C03_write_frame.
 Print Assumptions C03_write_effect.
 Print Assumptions C03_written_run_valid.
+Print Assumptions C03_scan_orphan_then_entry.
 Print Assumptions C03_write_entry_refines.
 Print Assumptions C03_mark_deleted_refines.
 Print Assumptions C03_rename_slots_refines.
